@@ -22,7 +22,7 @@ use std::panic::{catch_unwind, AssertUnwindSafe};
 use tachys::{
     html::{
         attribute::global::GlobalAttributes,
-        element::{br, div, hr, img, input, main, p, section, span, ul, ElementChild},
+        element::{br, div, hr, img, input, main, p, script, section, span, style, textarea, ul, ElementChild},
         InertElement,
     },
     hydration::Cursor,
@@ -32,6 +32,7 @@ use tachys::{
         keyed::keyed,
         Mountable, PositionState, Render, RenderHtml,
     },
+    reactive_graph::Suspend,
 };
 use vsexp::{Lst, Num, Sexp};
 
@@ -59,6 +60,11 @@ pub enum V {
     Keyed(Vec<V>),
     Inert(D),
     Num(u32),
+    /// `Suspend` over a future; `pending`: not yet resolved when the server renders (streamed forms)
+    Suspend(i64, bool, Box<V>),
+    /// textarea / style / script with string children (`Some`) and children that render to nothing
+    /// (`None(k)`: `()`, `Option::None`, empty `Vec`)
+    Raw(usize, Vec<(usize, String)>, Vec<Result<String, i64>>),
 }
 
 fn text(s: &Sexp) -> String {
@@ -97,6 +103,12 @@ pub fn dec_view(s: &Sexp) -> V {
         11 => V::Keyed(many(s.at(1))),
         12 => V::Inert(dec_dom(s.at(1))),
         13 => V::Num(s.at(1).num() as u32),
+        14 => V::Suspend(s.at(1).num(), s.at(2).num() != 0, Box::new(dec_view(s.at(3)))),
+        15 => V::Raw(
+            s.at(1).num() as usize,
+            dec_attrs(s.at(2)),
+            s.at(3).list().iter().map(|p| if p.at(0).num() == 1 { Ok(text(p.at(1))) } else { Err(p.at(1).num()) }).collect(),
+        ),
         _ => V::Unit,
     }
 }
@@ -134,7 +146,7 @@ macro_rules! element {
     ($ctor:ident, $attrs:expr, $kids:expr) => {{
         let (id, title, dx) = attr3($attrs);
         let e = $ctor().id(id).title(title).lang(dx);
-        let mut kids: Vec<AnyView> = $kids.iter().map(mk).collect();
+        let mut kids: Vec<AnyView> = $kids;
         match kids.len() {
             0 => e.into_any(),
             1 => e.child(kids.remove(0)).into_any(),
@@ -192,12 +204,12 @@ pub fn mk(v: &V) -> AnyView {
         V::Text(s) => s.clone().into_any(),
         V::Unit => ().into_any(),
         V::Elem(t, a, ks) => match t {
-            0 => element!(div, a, ks),
-            1 => element!(span, a, ks),
-            2 => element!(p, a, ks),
-            3 => element!(section, a, ks),
-            4 => element!(ul, a, ks),
-            _ => element!(main, a, ks),
+            0 => element!(div, a, ks.iter().map(mk).collect()),
+            1 => element!(span, a, ks.iter().map(mk).collect()),
+            2 => element!(p, a, ks.iter().map(mk).collect()),
+            3 => element!(section, a, ks.iter().map(mk).collect()),
+            4 => element!(ul, a, ks.iter().map(mk).collect()),
+            _ => element!(main, a, ks.iter().map(mk).collect()),
         },
         V::Void(t, a) => match t {
             0 => void_element!(br, a),
@@ -222,7 +234,46 @@ pub fn mk(v: &V) -> AnyView {
             InertElement::new(html).into_any()
         }
         V::Num(n) => (*n).into_any(),
+        V::Suspend(id, pending, inner) => {
+            let inner = (**inner).clone();
+            let rx = if *pending && STREAMING.with(|s| s.get()) {
+                let (tx, rx) = futures::channel::oneshot::channel::<()>();
+                SENDERS.with(|s| s.borrow_mut().push((*id, tx)));
+                Some(rx)
+            } else {
+                None
+            };
+            Suspend::new(async move {
+                if let Some(rx) = rx {
+                    let _ = rx.await;
+                }
+                mk(&inner)
+            })
+            .into_any()
+        }
+        V::Raw(t, a, parts) => {
+            let kids: Vec<AnyView> = parts
+                .iter()
+                .map(|p| match p {
+                    Ok(s) => s.clone().into_any(),
+                    Err(0) => ().into_any(),
+                    Err(1) => None::<String>.into_any(),
+                    Err(_) => Vec::<String>::new().into_any(),
+                })
+                .collect();
+            match t {
+                0 => element!(textarea, a, kids),
+                1 => element!(style, a, kids),
+                _ => element!(script, a, kids),
+            }
+        }
     }
+}
+
+thread_local! {
+    /// whether `mk` leaves the futures of pending `Suspend`s unresolved (server side of a streamed case)
+    static STREAMING: std::cell::Cell<bool> = const { std::cell::Cell::new(false) };
+    static SENDERS: std::cell::RefCell<Vec<(i64, futures::channel::oneshot::Sender<()>)>> = const { std::cell::RefCell::new(Vec::new()) };
 }
 
 /// same shape, every text and attribute value different
@@ -244,12 +295,15 @@ fn perturb(v: &V) -> V {
         V::Keyed(l) => V::Keyed(many(l)),
         V::Inert(d) => V::Inert(d.clone()),
         V::Num(n) => V::Num(n.wrapping_add(1)),
+        V::Suspend(id, pend, x) => V::Suspend(*id, *pend, Box::new(perturb(x))),
+        V::Raw(t, a, parts) => V::Raw(*t, pa(a), parts.iter().map(|p| p.clone().map(|s| format!("{s}~"))).collect()),
     }
 }
 
 // ------------------------------------------------------------------ HTML parser of the harness
 const VOID: &[&str] = &["br", "hr", "img", "input"];
 const BLOCK: &[&str] = &["div", "section", "ul", "main"];
+const RAWTEXT: &[&str] = &["textarea", "style", "script"];
 
 fn decode_refs(s: &str) -> String {
     let mut out = String::new();
@@ -311,6 +365,13 @@ pub fn parse_into(root: &Element, html: &str) {
             pos = end;
             continue;
         }
+        if html[pos..].starts_with("<!--") {
+            let end = html[pos + 4..].find("-->").map(|e| pos + 4 + e).expect("parser: unterminated comment");
+            let c = Dom::create_comment(&html[pos + 4..end]);
+            Dom::insert_node(&top, &c, None);
+            pos = end + 3;
+            continue;
+        }
         let close = html[pos..].find('>').map(|e| pos + e).expect("parser: unterminated tag");
         let inside = &html[pos + 1..close];
         if inside == "!" {
@@ -321,7 +382,9 @@ pub fn parse_into(root: &Element, html: &str) {
         }
         if let Some(name) = inside.strip_prefix('/') {
             let name = name.to_ascii_lowercase();
-            if name == "p" {
+            if name == "template" {
+                close_through(&mut stack, "template");
+            } else if name == "p" {
                 if stack.iter().any(|e| e.0 == "p") {
                     close_through(&mut stack, "p");
                 } else {
@@ -358,7 +421,9 @@ pub fn parse_into(root: &Element, html: &str) {
             None => (inside, ""),
         };
         let name = name.to_ascii_lowercase();
-        if !(VOID.contains(&name.as_str()) || BLOCK.contains(&name.as_str()) || name == "p" || name == "span") {
+        if !(VOID.contains(&name.as_str()) || BLOCK.contains(&name.as_str()) || name == "p" || name == "span"
+            || name == "template" || RAWTEXT.contains(&name.as_str()))
+        {
             panic!("parser: unsupported tag {name:?}");
         }
         let mut attrs: Vec<(String, String)> = vec![];
@@ -386,6 +451,25 @@ pub fn parse_into(root: &Element, html: &str) {
             el.0 .0.borrow_mut().attrs.push((k.clone(), v.clone()));
         }
         Dom::insert_node(&top, &el, None);
+        if RAWTEXT.contains(&name.as_str()) {
+            // the content up to the matching end tag is text (character references only in textarea)
+            let lower = html[close + 1..].to_ascii_lowercase();
+            let end = lower.find(&format!("</{name}>")).map(|e| close + 1 + e).expect("parser: unterminated raw text element");
+            let mut content = html[close + 1..end].to_string();
+            if name == "textarea" {
+                content = decode_refs(&content);
+                if content.starts_with('\n') {
+                    content.remove(0);
+                }
+            }
+            let content: String = content.chars().filter(|c| *c != '\0').collect();
+            if !content.is_empty() {
+                let t = Dom::create_text_node(&content);
+                Dom::insert_node(&el, &t, None);
+            }
+            pos = end + name.len() + 3;
+            continue;
+        }
         if !VOID.contains(&name.as_str()) {
             stack.push((name, el));
         }
@@ -456,7 +540,47 @@ fn collect_sync(mut b: tachys::ssr::StreamBuilder) -> Option<String> {
     Some(out)
 }
 
+/// `Suspend::rebuild` and a pending `Suspend::build` spawn a task; this property drives no executor:
+/// the tasks are parked (never polled) and dropped with the case.
+mod parked {
+    use any_spawner::{CustomExecutor, Executor, PinnedFuture, PinnedLocalFuture};
+    use std::cell::RefCell;
+    thread_local! {
+        static LOCAL: RefCell<Vec<PinnedLocalFuture<()>>> = const { RefCell::new(Vec::new()) };
+        static SENDABLE: RefCell<Vec<PinnedFuture<()>>> = const { RefCell::new(Vec::new()) };
+    }
+    struct Park;
+    impl CustomExecutor for Park {
+        fn spawn(&self, fut: PinnedFuture<()>) {
+            SENDABLE.with(|t| t.borrow_mut().push(fut));
+        }
+        fn spawn_local(&self, fut: PinnedLocalFuture<()>) {
+            LOCAL.with(|t| t.borrow_mut().push(fut));
+        }
+        fn poll_local(&self) {}
+    }
+    pub fn init() {
+        let _ = Executor::init_local_custom_executor(Park);
+    }
+    pub fn clear() {
+        let a = LOCAL.with(|t| std::mem::take(&mut *t.borrow_mut()));
+        let b = SENDABLE.with(|t| std::mem::take(&mut *t.borrow_mut()));
+        drop(a);
+        drop(b);
+    }
+}
+
 pub fn run(c: &Sexp) -> Sexp {
+    parked::init();
+    let owner = reactive_graph::owner::Owner::new();
+    owner.set();
+    let out = run_case(c);
+    owner.cleanup();
+    parked::clear();
+    out
+}
+
+fn run_case(c: &Sexp) -> Sexp {
     ndom::set_html_parser(parse_nodes);
     ndom::clear_errors();
     if c.at(0).num() == 1 {
@@ -471,6 +595,9 @@ pub fn run(c: &Sexp) -> Sexp {
             Sexp::bool(ino.as_deref() == Some(html.as_str())),
             Sexp::bool(ooo.as_deref() == Some(html.as_str())),
         ]);
+    }
+    if c.at(0).num() == 2 {
+        return run_streamed(c);
     }
     let v1 = dec_view(c.at(1));
     let v2 = dec_view(c.at(2));
@@ -548,4 +675,174 @@ pub fn run(c: &Sexp) -> Sexp {
         out.push(Sexp::bool(rebuild_ok));
     }
     Lst(out)
+}
+
+
+// ------------------------------------------------------------------ streamed forms with pending Suspends
+fn comments(n: &Node, out: &mut Vec<Node>) {
+    for c in n.children() {
+        if c.kind() == Kind::Comment {
+            out.push(c.clone());
+        }
+        comments(&c, out);
+    }
+}
+fn elements_named(n: &Node, name: &str, out: &mut Vec<Node>) {
+    for c in n.children() {
+        if c.tag().as_deref() == Some(name) {
+            out.push(c.clone());
+        }
+        elements_named(&c, name, out);
+    }
+}
+
+/// What the inline script of an out-of-order chunk does (tachys/src/ssr/mod.rs, OooChunk::push_end):
+/// find the comments `s-<id>o` / `s-<id>c`, delete from the first up to (excluding) the second, put
+/// the content of `<template id="<id>f">` before the second and remove it.
+fn apply_ooo_script(root: &Element, script_text: &str) {
+    let Some(start) = script_text.find("let id = \"") else { return };
+    let rest = &script_text[start + 10..];
+    let id = &rest[..rest.find('"').expect("script: id")];
+    let replace = script_text.contains("range.deleteContents()");
+    let mut cs = vec![];
+    comments(root, &mut cs);
+    let open = cs.iter().filter(|c| c.data() == format!("s-{id}o")).last().cloned().expect("script: no opening marker");
+    let close = cs.iter().filter(|c| c.data() == format!("s-{id}c")).last().cloned().expect("script: no closing marker");
+    let parent = Element::cast_from_node(close.parent_node().expect("marker without parent"));
+    if replace {
+        assert!(open.parent_node().map(|p| p.id()) == Some(parent.id()), "script: markers in different parents");
+        let kids = parent.children();
+        let i = kids.iter().position(|k| k.id() == open.id()).unwrap();
+        let j = kids.iter().position(|k| k.id() == close.id()).unwrap();
+        for k in &kids[i..j] {
+            Dom::remove(k);
+        }
+        let mut tpls = vec![];
+        elements_named(root, "template", &mut tpls);
+        let tpl = tpls
+            .iter()
+            .find(|t| t.get_attribute("id").as_deref() == Some(&format!("{id}f")))
+            .cloned()
+            .expect("script: no template");
+        for k in tpl.children() {
+            Dom::insert_node(&parent, &k, Some(&close));
+        }
+        Dom::remove(&close);
+    } else {
+        Dom::remove(&close);
+        Dom::remove(&open);
+    }
+}
+
+trait CastNode {
+    fn cast_from_node(n: Node) -> Element;
+}
+impl CastNode for Element {
+    fn cast_from_node(n: Node) -> Element {
+        Element(n)
+    }
+}
+
+/// case `(2 mode view early order)`: mode 1 = in-order, 2 = out-of-order stream; the futures of the
+/// `Suspend`s marked pending are unresolved when the stream is created; those listed in `early`
+/// complete before the stream is first polled, the others when the stream stalls, in `order`.
+/// The chunks are concatenated and parsed, the out-of-order scripts applied, and the same view
+/// (futures resolved, as on a client that received the data) is hydrated against the result.
+/// observation `(html tree (1 nops)|(0) same csr_eq)`
+fn run_streamed(c: &Sexp) -> Sexp {
+    use futures::Stream;
+    let mode = c.at(1).num();
+    let v = dec_view(c.at(2));
+    SENDERS.with(|s| s.borrow_mut().clear());
+    STREAMING.with(|s| s.set(true));
+    let view = mk(&v);
+    let stream = if mode == 1 { view.to_html_stream_in_order() } else { view.to_html_stream_out_of_order() };
+    let mut stream = Box::pin(stream);
+    let complete = |id: Option<i64>| -> bool {
+        let tx = SENDERS.with(|s| {
+            let mut s = s.borrow_mut();
+            let i = id.and_then(|id| s.iter().position(|e| e.0 == id)).or(if s.is_empty() { None } else { Some(0) });
+            i.map(|i| s.remove(i).1)
+        });
+        match tx {
+            Some(tx) => {
+                let _ = tx.send(());
+                true
+            }
+            None => false,
+        }
+    };
+    for id in c.at(3).nums() {
+        let has = SENDERS.with(|s| s.borrow().iter().any(|e| e.0 == id));
+        if has {
+            complete(Some(id));
+        }
+    }
+    let waker = futures::task::noop_waker();
+    let mut cx = std::task::Context::from_waker(&waker);
+    let mut order = c.at(4).nums().into_iter();
+    let mut html = String::new();
+    let mut stalls = 0;
+    loop {
+        match stream.as_mut().poll_next(&mut cx) {
+            std::task::Poll::Ready(Some(chunk)) => html.push_str(&chunk),
+            std::task::Poll::Ready(None) => break,
+            std::task::Poll::Pending => {
+                stalls += 1;
+                assert!(stalls < 1000, "stream does not finish");
+                if !complete(order.next()) {
+                    // nothing left to complete: poll once more, then give up
+                    assert!(stalls < 50, "stream pending with no unresolved future");
+                }
+            }
+        }
+    }
+    STREAMING.with(|s| s.set(false));
+    SENDERS.with(|s| s.borrow_mut().clear());
+
+    let root = Dom::create_element("div", None);
+    parse_into(&root, &html);
+    // run the scripts of the out-of-order chunks, in document order
+    let mut scripts = vec![];
+    elements_named(&root, "script", &mut scripts);
+    for sc in scripts {
+        let text = sc.children().first().map(|t| t.data()).unwrap_or_default();
+        if text.starts_with("(function() { let id = \"") {
+            apply_ooo_script(&root, &text);
+        }
+    }
+    // the templates and scripts of the chunks trail the application's markup: drop them
+    let kids = root.children();
+    if let Some(i) = kids.iter().position(|k| k.tag().as_deref() == Some("template")) {
+        for k in &kids[i..] {
+            Dom::remove(k);
+        }
+    }
+    let tree_s = Lst(root.children().iter().map(tree).collect());
+    let before = shape(&root);
+    let m0 = ndom::mutations();
+    let hyd = catch_unwind(AssertUnwindSafe(|| {
+        mk(&v).hydrate::<true>(&Cursor::new(root.clone()), &PositionState::default())
+    }));
+    let nops = ndom::mutations() - m0;
+    let out = match hyd {
+        Err(_) => Lst(vec![Sexp::from_str(&html), tree_s, Lst(vec![Num(0)])]),
+        Ok(st) => {
+            let same = shape(&root) == before;
+            let root2 = Dom::create_element("div", None);
+            let mut st2 = mk(&v).build();
+            st2.mount(&root2, None);
+            let csr_eq = visible(&root) == visible(&root2);
+            drop(st);
+            drop(st2);
+            Lst(vec![
+                Sexp::from_str(&html),
+                tree_s,
+                Lst(vec![Num(1), Num(nops as i64)]),
+                Sexp::bool(same),
+                Sexp::bool(csr_eq),
+            ])
+        }
+    };
+    out
 }
